@@ -92,6 +92,7 @@ type Ser struct {
 	fset map[int]*token.FileSet
 	// Unsupported is set to a description when a type outside the modelled fragment was met.
 	Unsupported string
+	istack      []*types.Interface
 }
 
 func NewSer(us ...*Universe) *Ser {
@@ -215,6 +216,14 @@ func (s *Ser) Term(t types.Type) string {
 		if !t.IsMethodSet() {
 			s.Unsupported = "constraint interface " + t.String()
 		}
+		for _, prev := range s.istack {
+			if prev == t {
+				s.Unsupported = "cyclic anonymous interface " + t.String()
+				return "T (HInterface []) []"
+			}
+		}
+		s.istack = append(s.istack, t)
+		defer func() { s.istack = s.istack[:len(s.istack)-1] }()
 		ids := make([]string, t.NumMethods())
 		var ts []types.Type
 		for i := 0; i < t.NumMethods(); i++ {
